@@ -47,8 +47,9 @@ class Summ:
         self.tagnum = {}
 
     # ---------------------------------------------------------------- atoms (structured keys)
-    def lit_is(self, subj, variant):
-        return B.atom(("is", subj, variant))
+    def lit_is(self, subj, variant, universe=None):
+        # the optional 4th component names all variants of the subject's type (known where the code switches on it): see boolalg.UNIVERSE
+        return B.atom(("is", subj, variant) + ((universe,) if universe else ()))
 
     def bool_formula(self, body, t, depth=0):
         """formula of a boolean-valued term"""
@@ -68,6 +69,14 @@ class Summ:
             if op in ("Eq", "Ne"):
                 a = a[2] if a[0] == "obj" else a
                 b = b[2] if b[0] == "obj" else b
+
+                def boolish(x):
+                    return (x[0] == "const" and x[1] == "bool") or (x[0] == "phi" and x[2] and all(m[0] == "const" and m[1] == "bool" for m in x[2]))
+                if boolish(a) or boolish(b):
+                    # comparison of two booleans (`starts_with(..) != expected` with `expected` chosen by a match): equivalence / exclusive or
+                    fa, fb = self.bool_formula(body, a, depth + 1), self.bool_formula(body, b, depth + 1)
+                    same = B.Or(B.And(fa, fb), B.And(B.Not(fa), B.Not(fb)))
+                    return same if op == "Eq" else B.Not(same)
             if a[0] == "const" and b[0] != "const":
                 a, b = b, a
                 op = {"Lt": "Gt", "Gt": "Lt", "Le": "Ge", "Ge": "Le"}.get(op, op)
@@ -124,11 +133,13 @@ class Summ:
         if k == "isin":
             if a[1][0] == "opt":
                 return B.T
-            return B.Or(*[self.lit_is(a[1], v) for v in a[2]])
+            u = core.VARIANT_UNIVERSE.get(a[1])
+            return B.Or(*[self.lit_is(a[1], v, u) for v in a[2]])
         if k == "isnot":
             if a[1][0] == "opt":
                 return B.T
-            return B.And(*[B.Not(self.lit_is(a[1], v)) for v in a[2]])
+            u = core.VARIANT_UNIVERSE.get(a[1])
+            return B.And(*[B.Not(self.lit_is(a[1], v, u)) for v in a[2]])
         if k == "true":
             return self.bool_formula(body, a[1])
         if k == "false":
@@ -200,7 +211,7 @@ class Summ:
         def fn(key):
             k = key[0]
             if k == "is":
-                return B.atom(("is", tr(key[1]), key[2]))
+                return B.atom(("is", tr(key[1]), key[2]) + tuple(key[3:]))
             if k == "rel":
                 return B.atom(("rel", key[1], tr(key[2]), tr(key[3])))
             if k == "pred":
@@ -288,7 +299,7 @@ class Summ:
             self._flag[key] = r
             return r
         r = B.Or(*[self.guard(body, bb) for bb in trues])
-        self._flag_exits(body, local, trues, falses)
+        mode = self._flag_exits(body, local, trues, falses)
         # "some iteration set the flag": the loop elements mentioned are bound by the flag, not by the reader's position
         inner = set()
         for bb in trues:
@@ -309,7 +320,11 @@ class Summ:
                         else:
                             nxt_.append(p_)  # still on the way out (blocks between the loop and bb)
                 frontier = nxt_
-        r = self.tag_elems(r, ("tag-flag", body.path, local), only_loops=(body, inner, trues))
+        if mode is not None:
+            # "some element before this one": the elements of the carrying loop are bound by the flag and marked as earlier ones
+            r = self.tag_elems(r, ("tag-flag<", body.path, local), only_elems={mode[1]})
+        else:
+            r = self.tag_elems(r, ("tag-flag", body.path, local), only_loops=(body, inner, trues))
         self._flag[key] = r
         return r
 
@@ -320,9 +335,36 @@ class Summ:
         reads = _reads_of(body, local)
         body.guards()
         trivial = getattr(body, "trivial_switches", set())
+        mode = None
         for h, blocks in sorted(body.loops.items()):
             if not any(t in blocks for t in trues) or any(f in blocks for f in falses):
                 continue  # not a loop whose iterations accumulate into the flag (the flag is per-iteration state of it, or is not set in it)
+            inside = sorted(rb for rb in reads if rb in blocks)
+            if inside:
+                # the flag is read by the iterations of the loop that sets it: at element x it says "some element before x set it". That is a statement
+                # about the list order, which the formula can carry only if every reader sees it the same way: all reads inside this loop, each of them
+                # before (in its own iteration) any place that sets the flag, the loop walking its list forwards and to exhaustion
+                name = body.locals[local].get("name") or "_%d" % local
+                why = None
+                import order as O
+                lp = [l for l in O.loops_of_body(body) if l.head == h]
+                if mode is not None:
+                    why = "it is carried by two nested loops"
+                elif [rb for rb in reads if rb not in blocks]:
+                    why = "it is also read at line %d outside that loop" % body.blocks[sorted(rb for rb in reads if rb not in blocks)[0]]["tloc"]["line"]
+                elif not lp or lp[0].order != "ordered" or any(c[1].rsplit("::", 1)[-1] in ("rev", "rposition", "rfind", "rfold") for c in T.calls_in(lp[0].iterable)):
+                    why = "the loop does not walk a list forwards"
+                elif lp[0].exits()[1]:
+                    why = "the loop is left early"
+                else:
+                    for t in trues:
+                        if t in blocks and any(t == rb or self._reaches_within(body, blocks, h, t, rb) for rb in inside):
+                            why = "the iteration that sets it (line %d) reads it afterwards" % body.blocks[t]["tloc"]["line"]
+                if why:
+                    raise Unanalysable("`%s` (%s) is read at line %d inside the loop whose other iterations set it, and %s: what is read depends on which elements came before"
+                                       % (name, body.path, body.blocks[inside[0]]["tloc"]["line"], why))
+                mode = ("before", ("elem", lp[0].iterable))
+                continue
             for x in sorted(blocks):
                 for (t, lab) in body.succ[x]:
                     if t in blocks or (lab is not None and lab[0] in trivial):
@@ -346,10 +388,25 @@ class Summ:
                     if hit:
                         raise Unanalysable("the loop that sets `%s` (%s) is left early at line %d on a path that has not set it: elements after that point are never examined"
                                            % (body.locals[local].get("name") or "_%d" % local, body.path, body.blocks[x]["tloc"]["line"]))
+        return mode
 
-    def tag_elems(self, f, tag, only_loops=None):
+    @staticmethod
+    def _reaches_within(body, blocks, head, a, b):
+        """b reachable from a inside one iteration (without going through the loop head)"""
+        seen, work = set(), [a]
+        while work:
+            y = work.pop()
+            for (z, _l) in body.succ[y]:
+                if z == b:
+                    return True
+                if z in blocks and z != head and z not in seen:
+                    seen.add(z)
+                    work.append(z)
+        return False
+
+    def tag_elems(self, f, tag, only_loops=None, only_elems=None):
         """rename the element variables bound by loops of the expanded predicate / flag"""
-        keep = None
+        keep = only_elems
         if only_loops is not None:
             # elements of loops that enclose every reader of the flag as well are shared with the reader (same iteration)
             body, heads, trues = only_loops
@@ -376,7 +433,7 @@ class Summ:
         def fn(key):
             k = key[0]
             if k == "is":
-                return B.atom(("is", tr(key[1]), key[2]))
+                return B.atom(("is", tr(key[1]), key[2]) + tuple(key[3:]))
             if k == "rel":
                 return B.atom(("rel", key[1], tr(key[2]), tr(key[3])))
             if k == "pred":
@@ -389,7 +446,7 @@ class Summ:
         def fn(key):
             k = key[0]
             if k == "is":
-                return B.atom(("is", core.subst_params(key[1], env), key[2]))
+                return B.atom(("is", core.subst_params(key[1], env), key[2]) + tuple(key[3:]))
             if k == "rel":
                 a2, b2 = core.subst_params(key[2], env), core.subst_params(key[3], env)
                 if key[1] == "Eq":
@@ -414,7 +471,10 @@ class Summ:
     def render_key(key, names=None):
         k = key[0]
         if k == "is":
-            return "is(%s; %s)" % (show(key[1], names), key[2])
+            subj = show(key[1], names)
+            if len(key) > 3:
+                B.UNIVERSE[B.universe_key(subj)] = key[3]
+            return "is(%s; %s)" % (subj, key[2])
         if k == "rel":
             return "%s(%s, %s)" % (key[1].lower(), show(key[2], names), show(key[3], names))
         if k == "pred":
